@@ -1,0 +1,43 @@
+/*
+ * Verification hooks.  Everything in this header expands to nothing unless
+ * the library is compiled with -DPIXMAN_VERIF, which no shipped build does.
+ *
+ * With the guard on, the library calls _pixman_verif_point() at a handful of
+ * places where internal state shared between calls or between threads is
+ * read or written.  The function is supplied by the verification harness
+ * that links the objects; the library itself does not define it.
+ */
+#ifndef PIXMAN_VERIF_H
+#define PIXMAN_VERIF_H
+
+#ifdef PIXMAN_VERIF
+
+enum
+{
+    PIXMAN_VERIF_READ = 0,
+    PIXMAN_VERIF_WRITE = 1
+};
+
+enum
+{
+    PIXMAN_VERIF_SITE_CACHE_SCAN = 1,	/* fast path cache about to be searched     */
+    PIXMAN_VERIF_SITE_CACHE_UPDATE,	/* fast path cache about to be reordered    */
+    PIXMAN_VERIF_SITE_CACHE_STORE,	/* slot 0 half written; aux = chosen func   */
+    PIXMAN_VERIF_SITE_VALIDATE_TEST,	/* image dirty flag about to be tested      */
+    PIXMAN_VERIF_SITE_VALIDATE_RECOMPUTE,	/* derived image state about to be rebuilt  */
+    PIXMAN_VERIF_SITE_VALIDATE_CLEAN,	/* dirty flag about to be cleared           */
+    PIXMAN_VERIF_SITE_GLYPH_PROBE	/* one probe step in the glyph hash table   */
+};
+
+void _pixman_verif_point (int site, const void *obj, int rw, const void *aux);
+
+#define VERIF_POINT(site, obj, rw, aux)					\
+    _pixman_verif_point ((site), (obj), (rw), (const void *)(aux))
+
+#else
+
+#define VERIF_POINT(site, obj, rw, aux)
+
+#endif
+
+#endif /* PIXMAN_VERIF_H */
